@@ -189,10 +189,13 @@ class NetworkXGraphStorageDisjoint:
             return new_id
 
     storage_instance = None
+    creation_lock = Lock()
 
     def __init__(self, logger=None):
-        if not NetworkXGraphStorageDisjoint.storage_instance:
-            NetworkXGraphStorageDisjoint.storage_instance = NetworkXGraphStorageDisjoint.__NetworkXGraphStorage(logger)
+        # threads making their first importer at the same time must end up with one store
+        with NetworkXGraphStorageDisjoint.creation_lock:
+            if not NetworkXGraphStorageDisjoint.storage_instance:
+                NetworkXGraphStorageDisjoint.storage_instance = NetworkXGraphStorageDisjoint.__NetworkXGraphStorage(logger)
 
     def __getattr__(self, name):
         return getattr(self.storage_instance, name)
